@@ -2,7 +2,7 @@
 import ast
 
 from ..core import Mutant, norm
-from ..astutil import unparse, method_call, parent
+from ..astutil import unparse, method_call, parent, keytext
 from ..index import dotted, walk_local
 
 EXPLANATION = ("C29: containment sanitizer: name/base flow into the path argument of every filesystem sink of Filer.remake "
@@ -63,7 +63,9 @@ def check(run):
     remake, clearp, exists = ix.method(cls, "remake"), ix.method(cls, "_clearPath"), ix.method(cls, "exists")
     # sinks and their taint
     sinks = [n for n in walk_local(remake.node) if isinstance(n, ast.Call) and dotted(n.func) in SINKS]
-    pathdefs = [n for n in walk_local(remake.node) if isinstance(n, ast.Assign) and dotted(n.targets[0]) == "path"]
+    # path locals: whatever is handed to a filesystem sink as its path argument
+    sunk = {dotted(c.args[0]) for c in sinks if c.args}
+    pathdefs = [n for n in walk_local(remake.node) if isinstance(n, ast.Assign) and isinstance(n.targets[0], ast.Name) and n.targets[0].id in sunk]
     tainted_defs = [n for n in pathdefs if {"name", "base"} <= {x.id for x in ast.walk(n.value) if isinstance(x, ast.Name)}]
     run.sites += len(sinks)
     run.ob("C29.R1", "%s:sinks-found" % remake.fq, len(sinks) >= 15 and len(tainted_defs) >= 3, run.site(remake),
@@ -111,7 +113,7 @@ def check(run):
             if ok:
                 depth = 0
                 depth0 = True
-        run.ob("C29.R1", "%s:removes-own-path-only:%s" % (clearp.fq, norm(c)), ok, run.site(clearp, c),
+        run.ob("C29.R1", "%s:removes-own-path-only:%s" % (clearp.fq, keytext(clearp, c)), ok, run.site(clearp, c),
                "" if ok else "_clearPath removes `%s`, which is not the Filer's own path (or its directory)" % norm(a))
     run.floor("C29.R1", 8)
     # R3 the old resource is released under the old configuration: reopen() closes/clears before it changes what _clearPath reads
